@@ -57,6 +57,18 @@ class Ctx:
         self.types, self.callmod, self.br = load_py()
         self.P = load_scala()
         self.encoded = set()
+        self.queue = []
+
+    def defer(self, key, text, solvers, timeout, handler):
+        self.queue.append((('q', len(self.queue), str(key)), text, solvers, timeout, handler))
+
+    def run_queue(self, workers=4):
+        t0 = time.time()
+        res = pyk.portfolio_many([(k, t, s, to) for k, t, s, to, h in self.queue], workers=workers)
+        self.R.log(f'[C34] {len(self.queue)} SMT queries solved in {time.time() - t0:.1f}s')
+        for k, t, s, to, h in self.queue:
+            h(res[k])
+        self.queue = []
 
     def on_py(self, f, node, src):
         key = (f.__code__.co_filename, node.lineno, f.__qualname__)
@@ -89,7 +101,7 @@ def explore_python(ctx, ploidy, bound, with_decode):
     """Returns (interp, vars, paths).  Path value: dict(enc=('ok', v)|('raise', kind), dec=..., value fields)."""
     types, callmod = ctx.types, ctx.callmod
     it = pyk.Interp(width=64, interpret_classes={callmod.Call}, on_function=ctx.on_py,
-                    intrinsics={id(types.allele_pair_sqrt): sqrt_cut_py(ctx, bound)}, feas_timeout_ms=3000)
+                    intrinsics={id(types.allele_pair_sqrt): sqrt_cut_py(ctx, bound)}, feas_timeout_ms=400)
     a = [it.int_var(f'a{i}') for i in range(ploidy)]
     ph = it.bool_var('phased')
     for x in a:
@@ -250,7 +262,7 @@ def encode_and_roundtrip(R, ctx, bound):
         t0 = time.time()
         it, a, ph, paths = explore_python(ctx, ploidy, bound, with_decode=True)
         # engine side: explored per Python path prefix would multiply paths; it is independent, so explore it separately
-        it2 = pyk.Interp(width=64, feas_timeout_ms=3000)
+        it2 = pyk.Interp(width=64, feas_timeout_ms=400)
         for c in it.pre:
             it2.assume(c)
         spaths = it2.explore(lambda i: scala_pack(ctx, i, ploidy, a, ph))
@@ -329,24 +341,26 @@ def encode_and_roundtrip(R, ctx, bound):
             if z3.is_false(z3.simplify(vio)):
                 R.ob(name, 'discharged' if rch else 'not_discharged', 0.0, {'note': 'no such path'}, nontrivial=rch)
                 continue
-            r, model, dt, solver = solve(pre + [vio], False, 150 if R.tier == 'quick' else 600)
-            if r == 'unsat':
-                R.ob(name, 'discharged' if rch else 'not_discharged', dt, {'solver': solver}, nontrivial=rch)
-            elif r == 'sat':
-                alleles = [model.get(f'a{i}', 0) for i in range(ploidy)]
-                phv = bool(model.get('phased', False))
-                cls, what = check_encode_cex(ctx, alleles, phv)
-                if not cls:
-                    raise HarnessError(f'{name}: counterexample {alleles} phased={phv} does not reproduce ({what})')
-                for c in sorted(cls):
-                    if c not in status_cache:
-                        status_cache[c] = R.finding(c, what, {'kind': 'call', 'alleles': alleles, 'phased': phv})
-                    R.ob(name if len(cls) == 1 else f'{name} <{c}>', status_cache[c], dt, {'alleles': alleles, 'phased': phv, 'what': what},
-                         nontrivial=True)
-            elif r == 'error':
-                raise HarnessError(f'{name}: solver error {str(model)[:300]}')
-            else:
-                R.ob(name, 'not_discharged', dt, {'solver': solver, 'result': r})
+            def handle(res, name=name, rch=rch, ploidy=ploidy):
+                r, model, dt, solver = res
+                if r == 'unsat':
+                    R.ob(name, 'discharged' if rch else 'not_discharged', dt, {'solver': solver}, nontrivial=rch)
+                elif r == 'sat':
+                    alleles = [model.get(f'a{i}', 0) for i in range(ploidy)]
+                    phv = bool(model.get('phased', False))
+                    cls, what = check_encode_cex(ctx, alleles, phv)
+                    if not cls:
+                        raise HarnessError(f'{name}: counterexample {alleles} phased={phv} does not reproduce ({what})')
+                    for c in sorted(cls):
+                        if c not in status_cache:
+                            status_cache[c] = R.finding(c, what, {'kind': 'call', 'alleles': alleles, 'phased': phv})
+                        R.ob(name if len(cls) == 1 else f'{name} <{c}>', status_cache[c], dt,
+                             {'alleles': alleles, 'phased': phv, 'what': what}, nontrivial=True)
+                elif r == 'error':
+                    raise HarnessError(f'{name}: solver error {str(model)[:300]}')
+                else:
+                    R.ob(name, 'not_discharged', dt, {'solver': solver, 'result': r})
+            ctx.defer(name, pyk.smt2(pre + [vio], 'QF_BV'), ('z3new', 'cvc5'), 150 if R.tier == 'quick' else 600, handle)
         # translator validation: solver-chosen calls per Python path, pushed through the real encoder
         for pc, side, v in py_ok[:: max(1, len(py_ok) // 6)]:
             s = z3.Solver()
@@ -380,52 +394,49 @@ def sqrt_contracts(R, ctx, bound):
     chunks = [(36, 64)] + [(1 << b, 1 << (b + 1)) for b in range(6, bound.bit_length() - 1)]
     jobs = {}
     meta = {}
+    # the kernels are explored once (feasibility "unknown" => explored; infeasible paths only add unsatisfiable disjuncts)
+    it = pyk.Interp(width=64, on_function=ctx.on_py, feas_timeout_ms=300)
+    i = it.int_var('i')
+    it.assume(z3.And(i.t >= 36, i.t < bound))
+    ppaths = it.explore(lambda it_: it_.call(types.allele_pair_sqrt, [i]))
+    pbad = []
+    for p in ppaths:
+        pc = z3.And(*p.pc) if p.pc else z3.BoolVal(True)
+        if p.kind != 'return':
+            pbad.append(pc)
+            continue
+        r = it.it(p.value)
+        j, k = r & 0xFFFF, r >> 16
+        side = z3.And(*p.side) if p.side else z3.BoolVal(True)
+        ok = z3.And(side, j >= 0, j <= k, k <= 0xFFFF, tri64(k) + j == i.t)
+        pbad.append(z3.And(pc, z3.Not(ok)))
+    its = pyk.Interp(width=32, feas_timeout_ms=300)
+    iv = z3.BitVec('i', 32)
+    its.assume(z3.And(iv >= 36, iv < bound))
+    ev = scalak.Evaluator(ctx.P, its, on_def=ctx.on_scala)
+    spaths = its.explore(lambda _: ev.call('Genotype', 'allelePairSqrt', [SInt(iv)]))
+    sbad = []
+    for p in spaths:
+        pc = z3.And(*p.pc) if p.pc else z3.BoolVal(True)
+        if p.kind != 'return':
+            sbad.append(pc)
+            continue
+        r = p.value.t
+        j, k = r & 0xFFFF, z3.LShR(r, 16)
+        ok = z3.And(z3.ULE(j, k), z3.ULE(k, 0xFFFF), z3.UDiv(k * (k + 1), z3.BitVecVal(2, 32)) + j == iv)
+        sbad.append(z3.And(pc, z3.Not(ok)))
+    to = 240 if R.tier == 'quick' else 700
     for lo, hi in chunks:
-        # Python
-        it = pyk.Interp(width=64, on_function=ctx.on_py, feas_timeout_ms=1500)
-        i = it.int_var('i')
-        it.assume(z3.And(i.t >= lo, i.t < hi))
-        paths = it.explore(lambda it_: it_.call(types.allele_pair_sqrt, [i]))
-        bad = []
-        for p in paths:
-            pc = z3.And(*p.pc) if p.pc else z3.BoolVal(True)
-            if p.kind != 'return':
-                bad.append(pc)
-                continue
-            r = it.it(p.value)
-            j, k = r & 0xFFFF, r >> 16
-            side = z3.And(*p.side) if p.side else z3.BoolVal(True)
-            ok = z3.And(side, j >= 0, j <= k, k <= 0xFFFF, tri64(k) + j == i.t)
-            bad.append(z3.And(pc, z3.Not(ok)))
         key = ('py', lo, hi)
-        jobs[key] = (key, pyk.smt2(list(it.pre) + [z3.Or(*bad)], 'QF_BVFP'), ('z3old', 'cvc5'), 240 if R.tier == 'quick' else 700)
-        meta[key] = ('Python allele_pair_sqrt', paths)
-        # Scala
-        it = pyk.Interp(width=32, feas_timeout_ms=1500)
-        iv = z3.BitVec('i', 32)
-        it.assume(z3.And(iv >= lo, iv < hi))
-        ev = scalak.Evaluator(ctx.P, it, on_def=ctx.on_scala)
-        paths = it.explore(lambda _: ev.call('Genotype', 'allelePairSqrt', [SInt(iv)]))
-        bad = []
-        for p in paths:
-            pc = z3.And(*p.pc) if p.pc else z3.BoolVal(True)
-            if p.kind != 'return':
-                bad.append(pc)
-                continue
-            r = p.value.t
-            j, k = r & 0xFFFF, z3.LShR(r, 16)
-            ok = z3.And(z3.ULE(j, k), z3.ULE(k, 0xFFFF), z3.UDiv(k * (k + 1), z3.BitVecVal(2, 32)) + j == iv)
-            bad.append(z3.And(pc, z3.Not(ok)))
+        jobs[key] = (key, pyk.smt2([i.t >= lo, i.t < hi, z3.Or(*pbad)], 'QF_BVFP'), ('z3old', 'cvc5'), to)
+        meta[key] = ('Python allele_pair_sqrt', ppaths)
         key = ('scala', lo, hi)
-        jobs[key] = (key, pyk.smt2(list(it.pre) + [z3.Or(*bad)], 'QF_BVFP'), ('z3old', 'cvc5'), 240 if R.tier == 'quick' else 700)
-        meta[key] = ('Scala Genotype.allelePairSqrt', paths)
-    order = sorted(jobs.values(), key=lambda j: -j[0][2])
-    t0 = time.time()
-    res = pyk.portfolio_many(order, workers=4)
-    R.log(f'[C34] sqrt contracts: {len(order)} Float64 queries in {time.time() - t0:.1f}s')
-    for key in sorted(jobs, key=lambda k: (k[0], k[1])):
+        jobs[key] = (key, pyk.smt2([iv >= lo, iv < hi, z3.Or(*sbad)], 'QF_BVFP'), ('z3old', 'cvc5'), to)
+        meta[key] = ('Scala Genotype.allelePairSqrt', spaths)
+    res = {}
+    def handle(resx, key):
         who, paths = meta[key]
-        r, model, dt, solver = res[key]
+        r, model, dt, solver = resx
         name = f'{who}(i) = (j,k) with tri(k)+j == i, 0 <= j <= k <= 0xFFFF, no assert fails, for {key[1]} <= i < {key[2]}'
         reach = any(p.kind == 'return' for p in paths)
         if r == 'unsat':
@@ -458,21 +469,28 @@ def sqrt_contracts(R, ctx, bound):
             raise HarnessError(f'{name}: solver error {str(model)[:300]}')
         else:
             R.ob(name, 'not_discharged', dt, {'solver': solver, 'result': r})
-    # translator validation of the sqrt kernels on corner inputs of every octave (term evaluated by z3's own FP vs CPython)
-    it = pyk.Interp(width=64)
-    i = it.int_var('i')
-    it.assume(z3.And(i.t >= 36, i.t < bound))
-    paths = it.explore(lambda it_: it_.call(types.allele_pair_sqrt, [i]))
-    ret = [p for p in paths if p.kind == 'return']
+    for key in sorted(jobs, key=lambda k: (-k[2], k[0])):
+        ctx.defer(key, jobs[key][1], jobs[key][2], jobs[key][3], lambda resx, key=key: handle(resx, key))
+    # translator validation of the sqrt kernels on corner inputs of every octave (term evaluated by z3's own FP vs CPython,
+    # and the symbolic vs concrete Scala evaluation)
+    ret = [p for p in ppaths if p.kind == 'return']
+    sret = [p for p in spaths if p.kind == 'return']
     for lo, hi in chunks:
-        for iv in (lo, hi - 1):
+        for x in (lo, hi - 1):
             for p in ret:
-                if all(pyk.eval_term(c, {i.t: iv}) for c in p.pc):
-                    enc = pyk.eval_term(it.it(p.value), {i.t: iv})
-                    real = ctx.types.allele_pair_sqrt(iv)
+                if all(pyk.eval_term(c, {i.t: x}) for c in p.pc):
+                    enc = pyk.eval_term(it.it(p.value), {i.t: x})
+                    real = ctx.types.allele_pair_sqrt(x)
                     R.validation_points += 1
                     if enc != real:
-                        raise HarnessError(f'translator validation allele_pair_sqrt({iv}): real={real} encoded={enc}')
+                        raise HarnessError(f'translator validation allele_pair_sqrt({x}): real={real} encoded={enc}')
+            for p in sret:
+                if all(pyk.eval_term(c, {iv: x}) for c in p.pc):
+                    enc = pyk.eval_term(p.value.t, {iv: x})
+                    if enc < 0:
+                        enc += 1 << 32
+                    if enc != ctx.types.allele_pair_sqrt(x):
+                        raise HarnessError(f'Scala allelePairSqrt({x}) (symbolic evaluation) = {enc} differs from the Python kernel')
 
 
 def scala_bijection(R, ctx, bound):
@@ -569,42 +587,44 @@ def scala_bijection(R, ctx, bound):
         if z3.is_false(z3.simplify(vio)):
             R.ob(name, 'discharged', 0.0, {'note': 'no such path'}, nontrivial=True)
             continue
-        r, model, dt, solver = solve(pre + [vio], False, 150 if R.tier == 'quick' else 600)
-        if r == 'unsat':
-            R.ob(name, 'discharged', dt, {'solver': solver}, nontrivial=True)
-        elif r == 'sat':
-            # model-level replay on the concrete Scala evaluation
-            if kind == ('index',):
-                i0 = model['i']
-                k1, p1 = scalak.run_concrete(P, 'Genotype', 'allelePair', [i0])
-                k2_, back = scalak.run_concrete(P, 'Genotype', 'diploidGtIndex', [p1]) if k1 == 'ok' else ('error', None)
-                bad = not (k1 == 'ok' and k2_ == 'ok' and back == i0)
-                what = f'Genotype.allelePair({i0}) = {k1, p1}; diploidGtIndex of it = {k2_, back} (model-level)'
-                rp = {'kind': 'scala-index', 'i': i0}
-            elif kind == ('pair',):
-                j0, k0 = model['j'], model['k']
-                k1, idx = scalak.run_concrete(P, 'Genotype', 'diploidGtIndex', [j0, k0])
-                k2_, pr = scalak.run_concrete(P, 'Genotype', 'allelePair', [idx]) if k1 == 'ok' else ('error', None)
-                bad = not (k1 == 'ok' and k2_ == 'ok' and idx == k0 * (k0 + 1) // 2 + j0 and pr == (j0 | (k0 << 16)))
-                what = f'Genotype.diploidGtIndex({j0},{k0}) = {k1, idx}; allelePair of it = {k2_, pr} (model-level)'
-                rp = {'kind': 'scala-pair', 'j': j0, 'k': k0}
+        def handle(res, name=name, kind=kind):
+            r, model, dt, solver = res
+            if r == 'unsat':
+                R.ob(name, 'discharged', dt, {'solver': solver}, nontrivial=True)
+            elif r == 'sat':
+                # model-level replay on the concrete Scala evaluation
+                if kind == ('index',):
+                    i0 = model['i']
+                    k1, p1 = scalak.run_concrete(P, 'Genotype', 'allelePair', [i0])
+                    k2_, back = scalak.run_concrete(P, 'Genotype', 'diploidGtIndex', [p1]) if k1 == 'ok' else ('error', None)
+                    bad = not (k1 == 'ok' and k2_ == 'ok' and back == i0)
+                    what = f'Genotype.allelePair({i0}) = {k1, p1}; diploidGtIndex of it = {k2_, back} (model-level)'
+                    rp = {'kind': 'scala-index', 'i': i0}
+                elif kind == ('pair',):
+                    j0, k0 = model['j'], model['k']
+                    k1, idx = scalak.run_concrete(P, 'Genotype', 'diploidGtIndex', [j0, k0])
+                    k2_, pr = scalak.run_concrete(P, 'Genotype', 'allelePair', [idx]) if k1 == 'ok' else ('error', None)
+                    bad = not (k1 == 'ok' and k2_ == 'ok' and idx == k0 * (k0 + 1) // 2 + j0 and pr == (j0 | (k0 << 16)))
+                    what = f'Genotype.diploidGtIndex({j0},{k0}) = {k1, idx}; allelePair of it = {k2_, pr} (model-level)'
+                    rp = {'kind': 'scala-pair', 'j': j0, 'k': k0}
+                else:
+                    j0, k0 = model.get('j', 0), model.get('k', 0)
+                    vals = [j0, k0] + ([j0 + 1, k0] if j0 < k0 else [0, k0 + 1])
+                    _, x = scalak.run_concrete(P, 'Genotype', 'diploidGtIndex', vals[:2])
+                    _, y = scalak.run_concrete(P, 'Genotype', 'diploidGtIndex', vals[2:])
+                    _, z0 = scalak.run_concrete(P, 'Genotype', 'diploidGtIndex', [0, 0])
+                    bad = (y != x + 1) or z0 != 0
+                    what = f'diploidGtIndex{tuple(vals[:2])}={x}, successor diploidGtIndex{tuple(vals[2:])}={y}, index(0,0)={z0}: not VCF order (model-level)'
+                    rp = {'kind': 'scala-order', 'vals': vals}
+                if not bad:
+                    raise HarnessError(f'{name}: counterexample does not reproduce on the concrete Scala evaluation: {what}')
+                st = R.finding('engine-genotype-index-not-bijective-or-not-vcf-order (model-level)', what, rp)
+                R.ob(name, st, dt, {'what': what}, nontrivial=True)
+            elif r == 'error':
+                raise HarnessError(f'{name}: solver error {str(model)[:300]}')
             else:
-                j0, k0 = model.get('j', 0), model.get('k', 0)
-                vals = [j0, k0] + ([j0 + 1, k0] if j0 < k0 else [0, k0 + 1])
-                _, x = scalak.run_concrete(P, 'Genotype', 'diploidGtIndex', vals[:2])
-                _, y = scalak.run_concrete(P, 'Genotype', 'diploidGtIndex', vals[2:])
-                _, z0 = scalak.run_concrete(P, 'Genotype', 'diploidGtIndex', [0, 0])
-                bad = (y != x + 1) or z0 != 0
-                what = f'diploidGtIndex{tuple(vals[:2])}={x}, successor diploidGtIndex{tuple(vals[2:])}={y}, index(0,0)={z0}: not VCF order (model-level)'
-                rp = {'kind': 'scala-order', 'vals': vals}
-            if not bad:
-                raise HarnessError(f'{name}: counterexample does not reproduce on the concrete Scala evaluation: {what}')
-            st = R.finding('engine-genotype-index-not-bijective-or-not-vcf-order (model-level)', what, rp)
-            R.ob(name, st, dt, {'what': what}, nontrivial=True)
-        elif r == 'error':
-            raise HarnessError(f'{name}: solver error {str(model)[:300]}')
-        else:
-            R.ob(name, 'not_discharged', dt, {'solver': solver, 'result': r})
+                R.ob(name, 'not_discharged', dt, {'solver': solver, 'result': r})
+        ctx.defer(name, pyk.smt2(pre + [vio], 'QF_BV'), ('z3new', 'cvc5'), 150 if R.tier == 'quick' else 600, handle)
 
 
 def small_tables(R, ctx):
@@ -651,7 +671,10 @@ def run(R):
     for fn in (small_tables, encode_and_roundtrip, scala_bijection, sqrt_contracts):
         t0 = time.time()
         fn(R, ctx) if fn is small_tables else fn(R, ctx, bound)
-        R.log(f'[C34] {fn.__name__}: {time.time() - t0:.1f}s')
+        R.log(f'[C34] {fn.__name__} prepared: {time.time() - t0:.1f}s')
+    # hardest first: the sqrt octaves and the round trip
+    ctx.queue.sort(key=lambda q: 0 if 'decode(encode' in q[0][2] else (1 if q[0][2].startswith("('") else 2))
+    ctx.run_queue()
 
 
 def replay(path):
